@@ -40,7 +40,11 @@ DESCEND == 68     \* "D"
 BODY == 66        \* "B"
 SKIP == 83        \* "S"
 ABORT == 65       \* "A"
+SWALLOW == 100    \* "d": descends like "D" but the callback reports success whatever the nested traversal returned.
+                  \* A failure is remembered by the parser itself, so what must be observed is exactly what "D" gives
+                  \* (Visit treats every action that is not Body / Skip / Abort as Descend).
 Actions == {DESCEND, BODY, SKIP, ABORT}
+ProgLetters == Actions \cup {SWALLOW}          \* what a recorded program may contain
 
 IsText(it) == "t" \in DOMAIN it
 Children(nd) == SelectSeq(nd.c, LAMBDA it : ~IsText(it))
